@@ -1,9 +1,9 @@
 SPECIFICATION SimSpec
 CONSTANT KS = {"address", "asset_id", "contract_id", "script_code", "predicate_code"}
 CONSTANT NKeys = 16777215
-CONSTANT NV = 4
+CONSTANT NV = 3
 CONSTANT SimDepth = 13
-CONSTANT Values = {1, 2, 3, 4}
+CONSTANT Values = {1, 2, 3}
 CONSTANT Default = 0
 CONSTANT MaxT = 1000
 CONSTANT Retention = 2
